@@ -62,6 +62,8 @@ CHECKS = {
     "C10": {
         "quick": [
             {"pkg": "v2", "entries": ["VerifC10Own"], "params": {"N": 2, "KEYS": 3}},
+            {"pkg": "v2", "entries": ["VerifC10Own"], "params": {"N": 3, "M": 2, "FAMS": 1}},
+            {"pkg": "v2", "entries": ["VerifC10Own"], "params": {"N": 2, "M": 3, "FAMS": 1}},
             {"pkg": "v2", "entries": ["VerifC10Ops"], "params": {"OPS": 3, "N": 2, "MAXIDX": 3}},
         ],
         "thorough": [
@@ -76,6 +78,8 @@ CHECKS = {
     "C09": {
         "quick": [
             {"pkg": "v2", "entries": ["VerifC09Render"], "params": {"N": 2, "KEYS": 3}},
+            {"pkg": "v2", "entries": ["VerifC09Render"], "params": {"N": 3, "M": 2, "FAMS": 1}},
+            {"pkg": "v2", "entries": ["VerifC09Render"], "params": {"N": 2, "M": 3, "FAMS": 1}},
             {"pkg": "v2", "entries": ["VerifC09Refuse"], "params": {}},
         ],
         "thorough": [
@@ -145,7 +149,7 @@ CHECKS = {
     "C08": {
         "quick": [
             {"pkg": "v2", "entries": ["VerifC08Hunk"], "params": {"N": 2, "RM": 2, "AD": 1}},
-            {"pkg": "v2", "entries": ["VerifC08Keyed"], "params": {"N": 2}},
+            {"pkg": "v2", "entries": ["VerifC08Keyed"], "params": {"N": 2, "IDKINDS": 1}},
             {"pkg": "v2", "entries": ["VerifC08Diff"], "params": {"N": 2}},
         ],
         "thorough": [
@@ -222,6 +226,7 @@ CHECKS = {
         "thorough": [
             {"pkg": "v2", "entries": ["VerifC04Pair"], "params": {"N": 2}},
             {"pkg": "v2", "entries": ["VerifC04Precision"], "params": {"N": 2}, "extra": ["-solver", "cvc5"]},
+            {"pkg": "v2", "entries": ["VerifC04Pair"], "params": {"N": 1, "RICH": 1}},
         ],
         "covers": ["c04.pair.list", "c04.pair.set", "c04.pair.multiset", "c04.pair.setkeys", "c04.precision"],
         "outside": "arrays longer than N, strings other than 0/1/8 bytes, FNV collisions",
